@@ -825,3 +825,9 @@ def run(ctx):
             ctx.ok(R_flags, {"flag": fl})
         else:
             ctx.bad(R_flags, "flag|%s" % fl, "-", "%s is set by the writer but never tested on the read path" % fl, "files carrying this flag are written in a form the reader does not interpret")
+
+
+def run_extra(ctx):
+    """rules armed after run(): shared rules that need nothing from run()'s locals"""
+    from ..shared import setters_keep_other_settings_rule
+    setters_keep_other_settings_rule(ctx, [ctx.prog.crate(c) for c in ["wow_mpq"]], "C01", "builder::ArchiveBuilder$|archive::OpenOptions$", floor=14)
